@@ -134,15 +134,18 @@ func poolRules(p *Prog, r *Report, R string) {
 		if ok {
 			ok = false
 			for _, g := range get[0].Guard {
-				for _, pre := range []string{"arg1 < ", "arg1 <= "} {
-					if strings.HasPrefix(g, pre) && strings.HasSuffix(g, ".maxbody") {
-						// the pool taken is the one whose maxbody was compared: the same cache
-						// entry, named by index (messageCache[i]) or by a range value copy (ci)
-						entry := strings.TrimSuffix(strings.TrimPrefix(g, pre), ".maxbody")
-						if cacheEntryDesc(nm.fn, entry) && strings.HasPrefix(get[0].Args[0], entry+".pool") {
-							ok = true
+				for _, op := range []string{"<", "<="} {
+					atomSides(g, op, func(x, y string) bool {
+						if x == "arg1" && strings.HasSuffix(y, ".maxbody") {
+							// the pool taken is the one whose maxbody was compared: the same cache
+							// entry, named by index (messageCache[i]) or by a range value copy (ci)
+							entry := strings.TrimSuffix(y, ".maxbody")
+							if cacheEntryDesc(nm.fn, entry) && strings.HasPrefix(get[0].Args[0], entry+".pool") {
+								ok = true
+							}
 						}
-					}
+						return ok
+					})
 				}
 			}
 		}
@@ -176,12 +179,15 @@ func poolRules(p *Prog, r *Report, R string) {
 		okc := false
 		if len(put) == 1 {
 			for _, g := range put[0].Guard {
-				if strings.HasPrefix(g, "recv.bsize == ") && strings.HasSuffix(g, ".maxbody") {
-					entry := strings.TrimSuffix(strings.TrimPrefix(g, "recv.bsize == "), ".maxbody")
-					if cacheEntryDesc(fr.fn, entry) && strings.HasPrefix(put[0].Args[0], entry+".pool") {
-						okc = true
+				atomSides(g, "==", func(x, y string) bool {
+					if x == "recv.bsize" && strings.HasSuffix(y, ".maxbody") {
+						entry := strings.TrimSuffix(y, ".maxbody")
+						if cacheEntryDesc(fr.fn, entry) && strings.HasPrefix(put[0].Args[0], entry+".pool") {
+							okc = true
+						}
 					}
-				}
+					return okc
+				})
 			}
 		}
 		r.Check(okc, R, "Free/own-class", put.Pos(p), "returned to the pool whose maxbody == bsize", "Free returns a buffer to a pool of a different size class (the comparison is not bsize == maxbody of that pool): a later NewMessage gets a buffer that is too small")
